@@ -25,5 +25,22 @@ func Run(cfg hx.Config) (*hx.Meta, error) {
 			}
 		},
 	}
-	return vr.Run(cfg)
+	meta, err := vr.Run(cfg)
+	if err != nil {
+		return nil, err
+	}
+	// hardening round 4: components that declare their own Equal method — with a value, a pointer and an
+	// interface parameter — held by value and by pointer in every kind of container; every pair of pool
+	// values, so that each single nil-ness mutation of such a pointer meets its non-nil twin
+	cat := ga.NewCatalogue()
+	cat.WithMethods = true
+	pool := 14
+	if cfg.Tier == "thorough" {
+		pool = 24
+	}
+	x := &ga.ExtraRun{VR: vr, Name: "methods", Types: cat.MethodShapesHB(), PoolMax: pool, Probe: cfg.Tier == "thorough"}
+	if err := x.Run(cfg, meta); err != nil {
+		return nil, err
+	}
+	return meta, nil
 }
